@@ -2,7 +2,7 @@
 """history/input search for C17 on the REAL objectives (run-time version of the C17 contract clauses).
 Prints one JSON line {"found": bool, "replay": <python source>}."""
 import sys, json, math, argparse, itertools
-sys.path.insert(0, "/repo")
+sys.path.insert(0, __import__("os").environ.get("PYVC_REPO", "/repo"))
 import numpy as np
 
 TOL = 1e-9   # A-REAL: the proof is over the reals; a float excess of a few ulp is not a counterexample
